@@ -28,6 +28,7 @@ import (
 	"container/list"
 	"encoding/hex"
 	"fmt"
+	"path/filepath"
 	"sort"
 	"strconv"
 	"strings"
@@ -85,6 +86,7 @@ type world struct {
 var (
 	logger logs.Logger
 	w      *world
+	info   = func(string) {} // statistics that are not violations
 )
 
 func newWorld() *world {
@@ -324,6 +326,13 @@ func check(x *world, op []string, okAns bool, before, after *snap) []viol {
 					add("markers-not-ancestors:commit", "CommitQC=%d but LockedQC=%d has ParentId %s", after.commit, after.lock, optStr(lp))
 				}
 			}
+		}
+	}
+	// (not part of C15 as written, counted only: a marker pointing at a node that updateCommit pruned)
+	for _, m := range []int{after.high, after.gen, after.lock, after.commit} {
+		if m >= 0 && after.mainCnt[m] == 0 {
+			info("info:marker-outside-tree")
+			break
 		}
 	}
 	// 6. HighQC view never decreases except by explicit rollback
@@ -687,6 +696,7 @@ func main() {
 	out := xvlib.NewOut(args.Out)
 	defer out.Close()
 	reported := map[string]int{}
+	info = out.Count
 	runLine := func(line string) {
 		ans, vs := step(line)
 		out.Emit(line, ans)
@@ -744,8 +754,25 @@ func main() {
 		}
 		return
 	}
+	// corpus first: minimal replays of repaired defects (a regression is a fresh violation)
+	corpus, _ := filepath.Glob(filepath.Join("corpus", args.Prop, "*.ops"))
+	sort.Strings(corpus)
+	for _, f := range corpus {
+		var cur []string
+		for _, l := range xvlib.ReadLines(f) {
+			if strings.HasPrefix(l, "reset") && len(cur) > 0 {
+				runCaseOut(cur)
+				cur = nil
+			}
+			cur = append(cur, l)
+		}
+		if len(cur) > 0 {
+			runCaseOut(cur)
+		}
+		out.Count("corpus-file")
+	}
 	rng := xvlib.NewRng(args.Seed)
-	exN, randCases := 4, 6000
+	exN, randCases := 5, 20000
 	if args.Tier == "thorough" {
 		exN, randCases = 6, 150000
 	}
